@@ -9,10 +9,11 @@
         in the quiescent case are exactly the objects of the dataset
      6. T3: refutations with RENAME
      7. T4: crash points of the final section
-     8. T6: termination of the quiescent run *)
+     8. T6: termination of the quiescent run
+     9. example data for Props/C09.v; the quiescent snapshot equals map rec_of (flatten s) *)
 From Coq Require Import List NArith ZArith Bool Lia Sorted.
 From Coq Require Import ZifyN ZifyNat ZifyBool.
-From T38 Require Import Base.Bytes Base.SMap Gen.Consts Model.Shrink.
+From T38 Require Import Base.Bytes Base.SMap Model.Shrink.
 Import ListNotations.
 Local Open Scope nat_scope.
 
@@ -688,4 +689,443 @@ Theorem crash_orig_refuted :
 Proof.
   exists fi_small. split; [intros k i; reflexivity|]. split; [|reflexivity].
   exists (b1 97), (b1 49), (b1 120). vm_compute. reflexivity.
+Qed.
+
+(* ------------------------------------------------------------------ 5. T5: record order *)
+
+Definition rec_lt (a b : cmd) : Prop :=
+  match a, b with
+  | CSet k i _, CSet k' i' _ => bytes_ltb k k' = true \/ (k = k' /\ bytes_ltb i i' = true)
+  | _, _ => False
+  end.
+
+Definition rec_sorted (l : list cmd) : Prop := Forall is_cset l /\ StronglySorted rec_lt l.
+
+(* strictly below the frontier (k0, nid) / key strictly below kb / key at most kb *)
+Definition rec_below (k0 nid : bytes) (c : cmd) : Prop :=
+  match c with CSet k i _ => bytes_ltb k k0 = true \/ (k = k0 /\ bytes_ltb i nid = true) | _ => False end.
+Definition rec_key_lt (kb : bytes) (c : cmd) : Prop :=
+  match c with CSet k _ _ => bytes_ltb k kb = true | _ => False end.
+Definition rec_key_le (kb : bytes) (c : cmd) : Prop :=
+  match c with CSet k _ _ => bytes_leb k kb = true | _ => False end.
+
+Lemma below_le k0 nid c : rec_below k0 nid c -> rec_key_le k0 c.
+Proof. destruct c; cbn; try tauto. intros [H|[-> _]]; [apply bytes_ltb_leb; exact H | apply bytes_leb_refl]. Qed.
+
+Lemma key_le_lt k0 k c : rec_key_le k0 c -> bytes_ltb k0 k = true -> rec_key_lt k c.
+Proof. destruct c; cbn; try tauto. intros H1 H2. eapply leb_ltb_trans; eauto. Qed.
+
+Lemma key_lt_leb k0 k c : rec_key_lt k0 c -> bytes_leb k0 k = true -> rec_key_lt k c.
+Proof. destruct c; cbn; try tauto. intros H1 H2. eapply ltb_leb_trans; eauto. Qed.
+
+Lemma key_lt_below k c : rec_key_lt k c -> rec_below k [] c.
+Proof. destruct c; cbn; tauto. Qed.
+
+Lemma below_mono k0 nid y c : rec_below k0 nid c -> bytes_leb nid y = true -> rec_below k0 y c.
+Proof. destruct c; cbn; try tauto. intros [H|[-> H]] Hy; [left; exact H | right; split; [reflexivity | eapply ltb_leb_trans; eauto]]. Qed.
+
+Lemma recs_key_le k l : Forall (rec_key_le k) (recs k l).
+Proof. rewrite Forall_forall. intros c H. apply in_recs in H. destruct H as [i [v [-> _]]]. cbn. apply bytes_leb_refl. Qed.
+
+Lemma SS_map_inv {A B} (f : A -> B) (S : B -> B -> Prop) (l : list A) :
+  StronglySorted S (map f l) -> StronglySorted (fun x y => S (f x) (f y)) l.
+Proof.
+  induction l as [|x l IH]; cbn; intros H; [constructor|].
+  apply StronglySorted_inv in H. destruct H as [H1 H2]. constructor; [apply IH; exact H1|].
+  rewrite Forall_forall in *. intros y Hy. apply H2. apply in_map; exact Hy.
+Qed.
+
+Lemma SS_firstn {A} (R : A -> A -> Prop) n (l : list A) : StronglySorted R l -> StronglySorted R (firstn n l).
+Proof. intros H. rewrite <- (firstn_skipn n l) in H. apply SS_app_inv in H. tauto. Qed.
+
+Lemma recs_sorted k (l : list (bytes * val)) : msorted l -> StronglySorted rec_lt (recs k l).
+Proof.
+  intros H. unfold msorted, sorted_keys, keys in H. apply SS_map_inv in H. unfold recs.
+  eapply SS_map; [|exact H]. cbn. intros x y Hxy. right. auto.
+Qed.
+
+Definition front (sh : shrink) : Prop :=
+  rec_sorted (sh_out sh) /\
+  match sh_pos sh with
+  | AtKeys => sh_keys sh = [] /\ sh_keysdone sh = true /\ Forall (rec_key_lt (sh_nextkey sh)) (sh_out sh)
+  | AtIds nid =>
+      match sh_keys sh with
+      | [] => True
+      | k0 :: rest =>
+          sorted_keys (k0 :: rest) /\
+          (sh_keysdone sh = false -> Forall (fun k => bytes_ltb k (sh_nextkey sh) = true) (k0 :: rest)) /\
+          Forall (rec_below k0 nid) (sh_out sh)
+      end
+  | ScanDone => True
+  end.
+
+Lemma front_shape sh : front sh -> shape sh.
+Proof. unfold front, shape. destruct (sh_pos sh); tauto. Qed.
+
+Lemma top_front keys nk kd out :
+  rec_sorted out -> sorted_keys keys ->
+  (kd = false -> Forall (fun k => bytes_ltb k nk = true) keys) ->
+  (forall k, In k keys -> Forall (rec_key_lt k) out) ->
+  (kd = false -> Forall (rec_key_lt nk) out) ->
+  front (top keys nk kd out).
+Proof.
+  intros Hrs Hsk Hnk Hlt Hout. unfold top, front. destruct keys as [|k1 r]; [destruct kd|]; cbn.
+  - auto.
+  - auto.
+  - split; [exact Hrs|]. split; [exact Hsk|]. split; [exact Hnk|].
+    eapply Forall_impl; [|apply (Hlt k1); left; reflexivity]. intros c; apply key_lt_below.
+Qed.
+
+Lemma front_init : front shrink_init.
+Proof. unfold front; cbn. split; [split; constructor|]. auto. Qed.
+
+Section Front.
+Variables mk mi : nat.
+
+Lemma step_front live sh : wf live -> front sh -> front (step mk mi live sh).
+Proof.
+  intros Hwf Hf. pose proof (step_cases mk mi live sh) as H. pose proof Hf as [Hrs Hpos].
+  destruct (sh_pos sh) as [|nid|] eqn:Ep.
+  - (* keys batch *)
+    destruct Hpos as [Hk [Hkd Hout]]. specialize (H Hk). cbn zeta in H. rewrite H.
+    set (l := keys (ascend_from (sh_nextkey sh) live)) in *.
+    assert (Hsl : sorted_keys l) by (apply ascend_from_sorted; apply Hwf).
+    assert (Hge : forall k, In k l -> bytes_leb (sh_nextkey sh) k = true).
+    { pose proof (ascend_from_ge (sh_nextkey sh) live (proj1 Hwf)) as G. rewrite Forall_forall in G. exact G. }
+    apply top_front.
+    + exact Hrs.
+    + apply sorted_firstn; exact Hsl.
+    + destruct (skipn mk l) as [|y t] eqn:Esk; [congruence|]. intros _.
+      rewrite Forall_forall. intros x Hx. eapply sorted_cut_lt; eauto.
+    + intros k Hk'. apply firstn_in in Hk'. eapply Forall_impl; [|exact Hout].
+      intros c Hc. eapply key_lt_leb; [exact Hc | apply Hge; exact Hk'].
+    + destruct (skipn mk l) as [|y t] eqn:Esk; [congruence|]. intros _.
+      eapply Forall_impl; [|exact Hout]. intros c Hc. eapply key_lt_leb; [exact Hc|].
+      apply Hge. eapply skipn_head_in; eauto.
+  - (* ids batch *)
+    destruct (sh_keys sh) as [|k0 rest] eqn:Ek; [rewrite H; exact Hf|].
+    destruct Hpos as [Hsk [Hnk Hbelow]].
+    assert (Hrest : sorted_keys rest /\ Forall (fun k => bytes_ltb k0 k = true) rest)
+      by (apply StronglySorted_inv in Hsk; exact Hsk).
+    destruct Hrest as [Hsrest Hk0rest]. rewrite Forall_forall in Hk0rest.
+    assert (Htop : forall out', rec_sorted out' -> Forall (rec_key_le k0) out' ->
+                     front (top rest (sh_nextkey sh) (sh_keysdone sh) out')).
+    { intros out' Hrs' Hle. apply top_front.
+      - exact Hrs'.
+      - exact Hsrest.
+      - intros Hkd. specialize (Hnk Hkd). inversion Hnk; assumption.
+      - intros k Hk'. eapply Forall_impl; [|exact Hle]. intros c Hc. eapply key_le_lt; [exact Hc | apply Hk0rest; exact Hk'].
+      - intros Hkd. specialize (Hnk Hkd). inversion Hnk; subst.
+        eapply Forall_impl; [|exact Hle]. intros c Hc. eapply key_le_lt; eauto. }
+    assert (Hle : Forall (rec_key_le k0) (sh_out sh)).
+    { eapply Forall_impl; [|exact Hbelow]. intros c; apply below_le. }
+    destruct (get k0 live) as [col|] eqn:Eg; [|rewrite H; apply Htop; assumption].
+    cbn zeta in H. set (l := ascend_from nid col) in *.
+    assert (Hcol : msorted col) by (eapply wf_get; eauto).
+    assert (Hsl : msorted l) by (apply ascend_from_sorted; exact Hcol).
+    assert (Hge : forall i, In i (keys l) -> bytes_leb nid i = true).
+    { pose proof (ascend_from_ge nid col Hcol) as G. rewrite Forall_forall in G. exact G. }
+    assert (Hrs' : rec_sorted (sh_out sh ++ recs k0 (firstn mi l))).
+    { destruct Hrs as [Hcs Hss]. split; [apply Forall_app; split; [exact Hcs | apply recs_cset]|].
+      apply SS_app; [exact Hss | apply recs_sorted; unfold msorted, keys; rewrite <- firstn_map; apply sorted_firstn; exact Hsl|].
+      intros x y Hx Hy. apply in_recs in Hy. destruct Hy as [i [v [-> Hy]]].
+      apply firstn_in in Hy. apply (in_map fst) in Hy. apply Hge in Hy. cbn [fst] in Hy.
+      rewrite Forall_forall in Hbelow. specialize (Hbelow x Hx). destruct x; cbn in *; try tauto.
+      destruct Hbelow as [Hb|[-> Hb]]; [left; exact Hb | right; split; [reflexivity | eapply ltb_leb_trans; eauto]]. }
+    destruct (skipn mi l) as [|[y w] t] eqn:Esk; rewrite H.
+    + apply Htop; [exact Hrs'|]. apply Forall_app. split; [exact Hle | apply recs_key_le].
+    + unfold front. cbn [sh_out sh_pos sh_keys sh_keysdone sh_nextkey].
+      split; [exact Hrs'|]. split; [exact Hsk|]. split; [exact Hnk|].
+      assert (Esk' : skipn mi (keys l) = y :: keys t) by (unfold keys; rewrite skipn_map, Esk; reflexivity).
+      apply Forall_app. split.
+      * eapply Forall_impl; [|exact Hbelow]. intros c Hc. eapply below_mono; [exact Hc|].
+        apply Hge. eapply skipn_head_in; eauto.
+      * rewrite Forall_forall. intros c Hc. apply in_recs in Hc. destruct Hc as [i [v [-> Hc]]]. cbn. right.
+        split; [reflexivity|]. eapply (sorted_cut_lt (keys l)); [exact Hsl | exact Esk'|].
+        unfold keys. rewrite firstn_map. apply (in_map fst) in Hc. exact Hc.
+  - rewrite H. exact Hf.
+Qed.
+
+Definition inv5 (r : run) : Prop := wf (r_live r) /\ front (r_sh r).
+
+Lemma inv5_run sched : forall r, inv5 r -> inv5 (run_sched mk mi sched r).
+Proof.
+  unfold run_sched. induction sched as [|e sched IH]; intros r Hinv; cbn [fold_left]; [exact Hinv|].
+  apply IH. destruct Hinv as [Hwf Hf]. destruct e as [c|]; cbn [do_ev].
+  - pose proof (exec_wf (r_live r) c Hwf) as Hwf'. destruct (exec (r_live r) c) as [s' o]. split; assumption.
+  - split; [exact Hwf | apply step_front; assumption].
+Qed.
+
+(* holds for all schedules, RENAME included *)
+Theorem batches_never_repeat s0 sched : wf s0 ->
+  let r := run_sched mk mi sched (run_init s0) in rec_sorted (sh_out (r_sh r)).
+Proof.
+  intros Hwf r. assert (H : inv5 r) by (apply inv5_run; split; [exact Hwf | exact front_init]).
+  destruct H as [_ [H _]]. exact H.
+Qed.
+
+Theorem batches_cover s n : wf s ->
+  let r := run_sched mk mi (repeat Step n) (run_init s) in
+  sh_done (r_sh r) = true ->
+  (forall k i v, In (CSet k i v) (sh_out (r_sh r)) <-> lookup k i s = Some v) /\ rec_sorted (sh_out (r_sh r)).
+Proof.
+  intros Hwf r Hdone. split; [|apply batches_never_repeat; exact Hwf].
+  assert (Hinv : inv1 s r) by (apply inv1_run; [apply no_rename_steps | apply inv1_init; exact Hwf]).
+  assert (Hlog : r_log r = []) by (unfold r; rewrite (proj2 (run_steps_live mk mi n _)); reflexivity).
+  destruct Hinv as [_ _ _ _ _ Hsound Hcover]. rewrite Hlog in *. intros k i v. split.
+  - apply Hsound. reflexivity.
+  - intros Hl. destruct (Hcover k i v eq_refl Hl) as [Hin|Hp]; [exact Hin|].
+    exfalso. eapply pending_done; eauto.
+Qed.
+
+End Front.
+
+(* ------------------------------------------------------------------ 8. T6: termination (quiescent) *)
+
+Lemma ascend_from_nil_id {V} (m : smap V) : ascend_from [] m = m.
+Proof. destruct m as [|[k v] r]; cbn; [reflexivity|]. rewrite ltb_nil_false. reflexivity. Qed.
+
+Lemma ascend_from_split {V} p (m : smap V) : exists pre, m = pre ++ ascend_from p m.
+Proof.
+  induction m as [|[k v] r [pre IH]]; cbn; [exists []; reflexivity|].
+  destruct (bytes_ltb k p); [exists ((k, v) :: pre); cbn; rewrite <- IH; reflexivity | exists []; reflexivity].
+Qed.
+
+Lemma ascend_from_at {V} (m a : smap V) y c t :
+  msorted m -> m = a ++ (y, c) :: t -> ascend_from y m = (y, c) :: t.
+Proof.
+  revert m. induction a as [|[k v] a IH]; intros m Hs ->; cbn.
+  - rewrite ltb_irrefl. reflexivity.
+  - cbn in Hs. pose proof (msorted_inv _ _ _ Hs) as [Hr Hall]. rewrite Forall_forall in Hall.
+    rewrite (Hall y).
+    + apply IH; [exact Hr | reflexivity].
+    + unfold keys. rewrite map_app. apply in_app_iff. right. left. reflexivity.
+Qed.
+
+Definition shape2 (sh : shrink) : Prop :=
+  match sh_pos sh with
+  | AtKeys => sh_keys sh = [] /\ sh_keysdone sh = true
+  | AtIds _ => sh_keys sh <> []
+  | ScanDone => True
+  end.
+
+Lemma top_shape2 keys nk kd out : shape2 (top keys nk kd out).
+Proof. unfold top, shape2. destruct keys; [destruct kd|]; cbn; auto. discriminate. Qed.
+
+Section Term.
+Variables (mk mi : nat) (s : st).
+Hypothesis Hmk : 1 <= mk.
+Hypothesis Hmi : 1 <= mi.
+Hypothesis Hwf : wf s.
+
+Lemma step_shape2 sh : shape2 sh -> shape2 (step mk mi s sh).
+Proof.
+  intros Hs. pose proof (step_cases mk mi s sh) as H. unfold shape2 in Hs. destruct (sh_pos sh) as [|nid|] eqn:Ep.
+  - rewrite (H (proj1 Hs)). apply top_shape2.
+  - destruct (sh_keys sh) as [|k0 rest]; [congruence|].
+    destruct (get k0 s) as [col|]; [|rewrite H; apply top_shape2].
+    cbn zeta in H. destruct (skipn mi (ascend_from nid col)) as [|[y w] t]; rewrite H; [apply top_shape2|].
+    unfold shape2; cbn. discriminate.
+  - rewrite H. unfold shape2. rewrite Ep. exact I.
+Qed.
+
+(* remaining work: 2 + |col| per collection not yet in a keys batch, 1 + |col| per key of the
+   current batch, 1 + remaining ids for the current key *)
+Definition KW (m : st) : nat := list_sum (map (fun kc => 2 + length (snd kc)) m).
+Definition idsw (k nid : bytes) : nat :=
+  match get k s with Some col => length (ascend_from nid col) | None => 0 end.
+Definition RW (ks : list bytes) : nat := list_sum (map (fun k => 1 + idsw k []) ks).
+Definition tailw (kd : bool) (nk : bytes) : nat := if kd then 0 else 1 + KW (ascend_from nk s).
+Definition mu (sh : shrink) : nat :=
+  match sh_pos sh with
+  | ScanDone => 0
+  | AtKeys => 1 + KW (ascend_from (sh_nextkey sh) s)
+  | AtIds nid =>
+      match sh_keys sh with
+      | [] => 0
+      | k0 :: rest => 1 + idsw k0 nid + RW rest + tailw (sh_keysdone sh) (sh_nextkey sh)
+      end
+  end.
+
+Lemma mu_top rest nk kd out : mu (top rest nk kd out) = RW rest + tailw kd nk.
+Proof.
+  unfold top, mu. destruct rest as [|k1 r]; [destruct kd|]; unfold RW, tailw, list_sum;
+    cbn [sh_pos sh_keys sh_keysdone sh_nextkey map fold_right]; lia.
+Qed.
+
+Lemma KW_app a b : KW (a ++ b) = KW a + KW b.
+Proof. unfold KW. rewrite map_app, list_sum_app. reflexivity. Qed.
+
+Lemma RW_keys (m' : st) : (forall x, In x m' -> In x s) -> RW (keys m') + length m' = KW m'.
+Proof.
+  induction m' as [|[k col] r IH]; intros Hin; [reflexivity|].
+  assert (Hg : get k s = Some col) by (apply In_get; [apply Hwf | apply Hin; left; reflexivity]).
+  specialize (IH (fun x Hx => Hin x (or_intror Hx))).
+  unfold RW, KW, list_sum in *. cbn [keys map fold_right length fst snd] in *. unfold idsw at 1. rewrite Hg, ascend_from_nil_id.
+  fold (keys r). lia.
+Qed.
+
+Lemma mu_dec sh : shape2 sh -> sh_done sh = false -> mu (step mk mi s sh) < mu sh.
+Proof.
+  intros Hs Hnd. pose proof (step_cases mk mi s sh) as H. unfold shape2 in Hs. unfold sh_done in Hnd.
+  unfold mu at 2. destruct (sh_pos sh) as [|nid|] eqn:Ep; [| |discriminate].
+  - destruct Hs as [Hk Hkd]. specialize (H Hk). cbn zeta in H. rewrite H, mu_top.
+    set (A := ascend_from (sh_nextkey sh) s) in *.
+    unfold keys at 1. rewrite firstn_map. fold (keys (firstn mk A)).
+    assert (HA : KW (firstn mk A) + KW (skipn mk A) = KW A) by (rewrite <- KW_app, firstn_skipn; reflexivity).
+    assert (HR : RW (keys (firstn mk A)) + length (firstn mk A) = KW (firstn mk A)).
+    { apply RW_keys. intros x Hx. apply firstn_in in Hx. eapply ascend_from_incl; exact Hx. }
+    pose proof (firstn_length mk A) as HL1. pose proof (skipn_length mk A) as HL2.
+    unfold keys in *. rewrite !skipn_map. destruct (skipn mk A) as [|[y cy] t] eqn:Esk; cbn [map fst].
+    + rewrite Hkd. cbn [tailw]. unfold KW in HA at 2; cbn in HA. lia.
+    + cbn [tailw].
+      assert (Ey : ascend_from y s = (y, cy) :: t).
+      { destruct (ascend_from_split (sh_nextkey sh) s) as [pre Hpre]. fold A in Hpre.
+        rewrite <- (firstn_skipn mk A), Esk, app_assoc in Hpre.
+        eapply ascend_from_at; [apply Hwf | exact Hpre]. }
+      rewrite Ey. cbn [length] in HL2. lia.
+  - destruct (sh_keys sh) as [|k0 rest] eqn:Ek; [congruence|].
+    destruct (get k0 s) as [col|] eqn:Eg.
+    + cbn zeta in H. set (l := ascend_from nid col) in *.
+      assert (Hid : idsw k0 nid = length l) by (unfold idsw; rewrite Eg; reflexivity).
+      pose proof (skipn_length mi l) as HL2.
+      destruct (skipn mi l) as [|[y w] t] eqn:Esk; rewrite H.
+      * rewrite mu_top. lia.
+      * unfold mu. cbn [sh_pos sh_keys sh_keysdone sh_nextkey].
+        assert (Ey : ascend_from y col = (y, w) :: t).
+        { destruct (ascend_from_split nid col) as [pre Hpre]. fold l in Hpre.
+          rewrite <- (firstn_skipn mi l), Esk, app_assoc in Hpre.
+          eapply ascend_from_at; [eapply wf_get; eauto | exact Hpre]. }
+        assert (Hid' : idsw k0 y = length ((y, w) :: t)) by (unfold idsw; rewrite Eg, Ey; reflexivity).
+        rewrite Hid', Hid, HL2. cbn [length] in HL2. lia.
+    + rewrite H, mu_top. lia.
+Qed.
+
+Lemma terminates_from : forall m sh log, mu sh <= m -> shape2 sh ->
+  exists n, sh_done (r_sh (run_sched mk mi (repeat Step n) (mkRun s sh log))) = true.
+Proof.
+  induction m as [|m IH]; intros sh log Hm Hs; destruct (sh_done sh) eqn:Ed;
+    try (exists 0; exact Ed); pose proof (mu_dec sh Hs Ed) as Hdec; [lia|].
+  destruct (IH (step mk mi s sh) log) as [n Hn]; [lia | apply step_shape2; exact Hs|].
+  exists (S n). exact Hn.
+Qed.
+
+Theorem quiescent_terminates :
+  exists n, sh_done (r_sh (run_sched mk mi (repeat Step n) (run_init s))) = true.
+Proof. apply (terminates_from (mu shrink_init)); [lia|]. unfold shape2; cbn. auto. Qed.
+
+End Term.
+
+(* ------------------------------------------------------------------ example data (used by Props/C09.v) *)
+
+(* n objects "00", "01", ... (two decimal digits, so the ids are sorted for n <= 100) *)
+Definition ex_ids (n : nat) : coll :=
+  map (fun i => ([N.of_nat (48 + i / 10); N.of_nat (48 + i mod 10)], b1 120)) (seq 0 n).
+
+(* ten collections "a".."j"; "d" has 40 objects (two ids batches), the others 2 *)
+Definition ex_data : st :=
+  map (fun j => (b1 (N.of_nat (97 + j)), if Nat.eqb j 3 then ex_ids 40 else ex_ids 2)) (seq 0 10).
+
+Definition ex_id (i : nat) : bytes := [N.of_nat (48 + i / 10); N.of_nat (48 + i mod 10)].
+
+(* writers between the locked sections: SET into a collection already snapshotted, into the one
+   being snapshotted, into one not yet reached, a new collection behind and ahead of the cursor,
+   DEL, DROP; no RENAME *)
+Definition ex_sched : list ev :=
+  [Step; W (CSet (b1 97) (ex_id 7) (b1 121)); Step; Step;
+   W (CSet (b1 98) (ex_id 0) (b1 122)); W (CDel (b1 100) (ex_id 5)); W (CDel (b1 100) (ex_id 99));
+   Step; Step; W (CSet (b1 100) (ex_id 35) (b1 121)); W (CDrop (b1 102)); W (CDrop (b1 120));
+   W (CSet [96%N] (ex_id 1) (b1 121)); W (CSet (b1 122) (ex_id 1) (b1 121)); Step; W (CDel (b1 106) (ex_id 0));
+   W (CDel (b1 106) (ex_id 1))] ++ repeat Step 40.
+
+Definition ex_sched_flush : list ev :=
+  [Step; Step; Step; W (CSet (b1 97) (ex_id 7) (b1 121)); W CFlushdb; Step;
+   W (CSet (b1 99) (ex_id 7) (b1 121)); W (CSet (b1 122) (ex_id 7) (b1 121))] ++ repeat Step 40.
+
+(* the final section: live file with a deleted object, one unflushed command, its snapshot and shrinklog *)
+Definition ex_final : final_in :=
+  mkFinal [CSet (b1 97) (ex_id 1) (b1 120); CSet (b1 97) (ex_id 2) (b1 121); CDel (b1 97) (ex_id 1)]
+          [CSet (b1 98) (ex_id 1) (b1 122)]
+          [CSet (b1 97) (ex_id 2) (b1 121)]
+          [CSet (b1 98) (ex_id 1) (b1 122)].
+
+(* ------------------------------------------------------------------ the quiescent snapshot is the flattened dataset *)
+
+Lemma SS_ext {A} (R : A -> A -> Prop) :
+  (forall x, ~ R x x) -> (forall x y z, R x y -> R y z -> R x z) ->
+  forall l1 l2, StronglySorted R l1 -> StronglySorted R l2 -> (forall x, In x l1 <-> In x l2) -> l1 = l2.
+Proof.
+  intros Hirr Htr. induction l1 as [|x1 r1 IH]; intros [|x2 r2] H1 H2 Hin.
+  - reflexivity.
+  - exfalso. apply (proj2 (Hin x2)). left; reflexivity.
+  - exfalso. apply (proj1 (Hin x1)). left; reflexivity.
+  - apply StronglySorted_inv in H1, H2. destruct H1 as [H1 F1], H2 as [H2 F2]. rewrite Forall_forall in F1, F2.
+    assert (Hx : x1 = x2).
+    { destruct (proj1 (Hin x1) (or_introl eq_refl)) as [E|E1]; [symmetry; exact E|].
+      destruct (proj2 (Hin x2) (or_introl eq_refl)) as [E|E2]; [exact E|].
+      exfalso. apply (Hirr x1). eapply Htr; [apply F1; exact E2 | apply F2; exact E1]. }
+    subst x2. f_equal. apply IH; [exact H1 | exact H2|]. intros x. split; intros Hx.
+    + destruct (proj1 (Hin x) (or_intror Hx)) as [E|E]; [|exact E]. subst x. exfalso. apply (Hirr x1), F1, Hx.
+    + destruct (proj2 (Hin x) (or_intror Hx)) as [E|E]; [|exact E]. subst x. exfalso. apply (Hirr x1), F2, Hx.
+Qed.
+
+Lemma rec_lt_irrefl x : ~ rec_lt x x.
+Proof. destruct x; cbn; try tauto. rewrite !ltb_irrefl. intros [H|[_ H]]; discriminate. Qed.
+
+Lemma rec_lt_trans x y z : rec_lt x y -> rec_lt y z -> rec_lt x z.
+Proof.
+  destruct x, y, z; cbn; try tauto. intros [H1|[-> H1]] [H2|[-> H2]].
+  - left. eapply ltb_trans; eauto.
+  - left. exact H1.
+  - left. exact H2.
+  - right. split; [reflexivity | eapply ltb_trans; eauto].
+Qed.
+
+Definition snap (s : st) : list cmd := flat_map (fun kc => recs (fst kc) (snd kc)) s.
+
+Lemma snap_flatten s : map rec_of (flatten s) = snap s.
+Proof.
+  unfold flatten, snap. induction s as [|[k col] r IH]; cbn; [reflexivity|].
+  rewrite map_app, IH. f_equal. unfold recs. rewrite map_map. reflexivity.
+Qed.
+
+Lemma in_snap c s : In c (snap s) -> exists k col i v, In (k, col) s /\ In (i, v) col /\ c = CSet k i v.
+Proof.
+  unfold snap. intros H. apply in_flat_map in H. destruct H as [[k col] [Hkc Hc]]. cbn in Hc.
+  apply in_recs in Hc. destruct Hc as [i [v [-> Hiv]]]. exists k, col, i, v. auto.
+Qed.
+
+Lemma snap_in s k i v : wf s -> (In (CSet k i v) (snap s) <-> lookup k i s = Some v).
+Proof.
+  intros Hwf. split.
+  - intros H. apply in_snap in H. destruct H as [k' [col [i' [v' [Hkc [Hiv Heq]]]]]]. inversion Heq; subst k' i' v'.
+    assert (Hg : get k s = Some col) by (apply In_get; [apply Hwf | exact Hkc]).
+    unfold lookup. rewrite Hg. apply In_get; [eapply wf_get; eauto | exact Hiv].
+  - intros H. destruct (lookup_some _ _ _ _ H) as [col [Hg Hi]]. unfold snap. apply in_flat_map.
+    exists (k, col). split; [apply get_In; exact Hg|]. cbn. apply recs_in, get_In. exact Hi.
+Qed.
+
+Lemma snap_sorted s : wf s -> rec_sorted (snap s).
+Proof.
+  intros Hwf. split.
+  - rewrite Forall_forall. intros c Hc. apply in_snap in Hc. destruct Hc as [k [col [i [v [_ [_ ->]]]]]]. exact I.
+  - destruct Hwf as [Hs HF]. induction s as [|[k col] r IH]; cbn; [constructor|].
+    pose proof (msorted_inv _ _ _ Hs) as [Hr Hall]. inversion HF; subst.
+    apply SS_app; [apply recs_sorted; assumption | apply IH; assumption|].
+    intros x y Hx Hy. apply in_recs in Hx. destruct Hx as [i [v [-> _]]].
+    apply in_snap in Hy. destruct Hy as [k' [col' [i' [v' [Hkc [_ ->]]]]]]. cbn. left.
+    rewrite Forall_forall in Hall. apply Hall. apply (in_map fst) in Hkc. exact Hkc.
+Qed.
+
+Theorem quiescent_snapshot mk mi s n : wf s ->
+  let r := run_sched mk mi (repeat Step n) (run_init s) in
+  sh_done (r_sh r) = true -> sh_out (r_sh r) = map rec_of (flatten s).
+Proof.
+  intros Hwf r Hdone. rewrite snap_flatten.
+  destruct (batches_cover mk mi s n Hwf Hdone) as [Hin [Hcs Hss]]. fold r in Hin, Hcs, Hss.
+  apply (SS_ext rec_lt rec_lt_irrefl rec_lt_trans); [exact Hss | apply snap_sorted; exact Hwf|].
+  intros x. split; intros Hx.
+  - rewrite Forall_forall in Hcs. pose proof (Hcs x Hx) as Hc. destruct x; cbn in Hc; try contradiction.
+    apply snap_in; [exact Hwf|]. apply Hin; exact Hx.
+  - destruct (in_snap _ _ Hx) as [k [col [i [v [_ [_ ->]]]]]]. apply Hin. apply snap_in; assumption.
 Qed.
